@@ -552,6 +552,18 @@ def analyse(src: Source) -> List[Report]:
                 and f"1/{charge_var}" in fs and len(speed) == 1 and "random.expovariate(setting.beta)" in fs
         rep.ob("R18.4-candidate-time", okt, locv, td[0] if td else "time displacement",
                "the candidate time must be Exp(beta) / (total rate of the chosen walker x charge factor x speed)")
+        # the speed that converts the rate per distance into a rate per time is that of the unit whose clock the candidate time is
+        # counted from (the active leaf): a unit higher up in a composite object moves slower by its weight
+        if len(td) == 1 and okt:
+            sp_base = speed[0][2:].split(".velocity[")[0]
+            ts_bases = {canon_names(RT.text(n.value, keep)) for a in ast.walk(st) if isinstance(a, ast.Assign)
+                        for n in ast.walk(a.value) if isinstance(n, ast.Attribute) and n.attr == "time_stamp"
+                        and any(isinstance(x, ast.BinOp) and isinstance(x.op, ast.Add) for x in ast.walk(a.value))}
+            oks = None if len(ts_bases) != 1 else sp_base in ts_bases
+            rep.ob("R18.4-speed-of-the-clock-unit", oks, locv, f"speed of `{sp_base}`, candidate time counted from the time stamp of {sorted(ts_bases)}",
+                   "the speed dividing the sampled displacement must be the speed of the unit whose time stamp the candidate time is added to "
+                   "(the active leaf unit); the unit on the cell level of a composite object moves slower by its weight, so proposals "
+                   "would come too rarely")
         be = [a for a in ast.walk(st) if isinstance(a, ast.Assign) and self_attr(a.targets[0]) and "rate" in self_attr(a.targets[0])
               and isinstance(a.value, ast.BinOp)]
         okq = False
